@@ -197,7 +197,6 @@ static int do_replay(const char *in, const char *out)
 				close(pfd[0]);
 				FILE *pw = fdopen(pfd[1], "w");
 				if (ncrash >= 5) { int fd = open("/dev/null", O_WRONLY); dup2(fd, 2); }
-				else fprintf(stderr, "#FORKED %s\n", id);
 				run_vector(regs, n, fin, fout, &r, &inv);
 				fprintf(pw, "%s %c %zu ", id, r.st, r.size);
 				if (r.st == 'R') put_hex(pw, r.b.p, r.b.n); else fputc('-', pw);
